@@ -826,6 +826,7 @@ func TestC26(t *testing.T) {
 
 	// ---- layer 2: the real adapter inside a running proxy ------------------------------------
 	runAdapterLayer(r)
+	runAdapterSwitchLayer(r)
 }
 
 // gateFrames keeps the Gate frames of a stack (function lines only).
